@@ -154,3 +154,10 @@ func (db *RockDB) VerifRawDump() ([][2][]byte, error) {
 	}
 	return out, nil
 }
+
+// VerifFlushHLL writes the dirty HyperLogLog items of the write-back cache into the engine (what Backup and Close do).
+func (db *RockDB) VerifFlushHLL() {
+	if db.hllCache != nil {
+		db.hllCache.Flush()
+	}
+}
